@@ -141,7 +141,7 @@ def models():
     ms.append(M('collections', [], [L(INT), L(L(STR)), D(INT), D(L(STR)),
                                     L(U(INT, STR)), D(ANY), L(ANY),
                                     U(L(INT), D(INT)), Opt(L(STR)),
-                                    L(Opt(INT))],
+                                    L(Opt(INT)), U(L(INT), L(STR))],
                 keys=['a', 'b'], scalars=[S_ABC, S_42, S_NULL],
                 qtags=('seq', '!Unknown'), mtags=('map', '!Unknown', 'set'),
                 oddkeys=[S_42, S_NULL], family='builtin'))
